@@ -149,21 +149,29 @@ func mkFlags(a map[string]string) string {
 	if a["role"] == "1/1" { // swap-in initiator: the only role whose table accepts swap_in_agreement
 		agr = bit(a["inagree"])
 	}
-	return o + bit(a["opening"]) + bit(a["invpaid"]) + bit(a["spentback"]) + bit(a["claimtx"]) + bit(a["csvwatch"]) + bit(a["resend"]) + bit(a["suspicious"]) + agr
+	// a failed attempt on record while the swap is stored in its broadcast-opening state
+	failed := "0"
+	if strings.HasSuffix(a["state"], "_BroadcastOpeningTx") && a["lasterr"] != "-" && a["lasterr"] != "" {
+		failed = "1"
+	}
+	return o + bit(a["opening"]) + bit(a["invpaid"]) + bit(a["spentback"]) + bit(a["claimtx"]) + bit(a["csvwatch"]) + bit(a["resend"]) + bit(a["suspicious"]) + agr + failed
 }
 
 func init() {
 	absSpecs["Mk"] = absSpec{prop: "Mk", roles: []string{"inSender", "outReceiver"}, flags: mkFlags, params: func(steps []string) string {
-		cib, sf := "0", "0"
+		cib, sf, eab := "0", "0", "0"
 		for _, s := range steps {
 			if strings.HasPrefix(s, "crash") {
 				cib = "1"
+			}
+			if strings.HasPrefix(s, "fault opening-after") {
+				eab = "1"
 			}
 			if strings.HasPrefix(s, "fault outputscript") {
 				sf = "1"
 			}
 		}
-		return cib + " " + sf + " 0"
+		return cib + " " + eab + " " + sf + " 0"
 	}}
 	registerAbsSlices()
 }
